@@ -71,7 +71,7 @@ impl Property for C14 {
         let neps = 1 + rng.usize(4);
         let mut kinds = Vec::new();
         for k in 0..neps {
-            let kind = rng.below(14);
+            let kind = rng.below(15);
             h.u64(kind);
             kinds.push(kind);
             let aw = |rng: &mut Rng, awaits: &mut Vec<String>, name: String| {
@@ -80,6 +80,16 @@ impl Property for C14 {
                 }
             };
             match kind {
+                14 => {
+                    // a slow owner: opens a file, then waits for a go message that a timer process sends
+                    // later; main gives up on it after a short timeout and may have finished long before the
+                    // owner does (its completion is then reported for an awaiter that is already gone)
+                    let t = *rng.pick(&[20u32, 150]);
+                    h.u64(t as u64);
+                    lines.push(format!("c{k} = @#{{ f = [\"/e{k}\" .0, 577, 420] __file_open__, w = [f, 0, 0x0102] __file_write__, g = !'int, g }}"));
+                    lines.push(format!("t{k} = &c{k} @#(@'int) {{ =p, z = ! [{t}], 1 p }}"));
+                    lines.push(format!("q{k} = [! [c{k}, {}]]", *rng.pick(&[0u32, 5])));
+                }
                 0 => {
                     let mode = rng.below(3);
                     h.u64(mode);
@@ -261,6 +271,8 @@ pub struct ResMonitor {
     silent: BTreeSet<usize>,
     hist_pos: usize,
     reported: BTreeSet<usize>,
+    /// processes named as a target in some await query the environment consumed
+    awaited: BTreeSet<usize>,
     rejected: BTreeMap<usize, u32>,
     probes: BTreeMap<String, u64>,
     failed_owner_closed: BTreeSet<usize>,
@@ -410,6 +422,9 @@ impl Monitor for ResMonitor {
                         self.transfer(world, argument, new_pid, "spawn");
                     }
                 }
+                Event::AwaitAction { targets, .. } => {
+                    self.awaited.extend(targets.iter().copied());
+                }
                 Event::ProcessResults { results, .. } => {
                     for (pid, r) in results {
                         if r.is_some() {
@@ -497,7 +512,15 @@ impl Monitor for ResMonitor {
                 if persistent {
                     continue;
                 }
-                let cause = if self.reported.contains(&o) { "owner-reported-not-closed" } else { "owner-never-awaited" };
+                // never awaited at all (the known finding), awaited but its completion never reported to the
+                // environment, or reported and still not closed
+                let cause = if self.reported.contains(&o) {
+                    "owner-reported-not-closed"
+                } else if self.awaited.contains(&o) {
+                    "owner-awaited-but-completion-never-reported"
+                } else {
+                    "owner-never-awaited"
+                };
                 self.probe("owner_never_awaited_resource_left_open");
                 v.push(Violation::new("C14", "never-closed", cause, format!("at quiescence resource {r} is still open although its owner, process {o} ({}), has terminated", world.pid_names.get(&o).cloned().unwrap_or_default()), world.steps));
                 break;
